@@ -90,6 +90,11 @@ pub struct W3Script {
     pub panic_at: u64,
     pub follow: Follow,
     pub placement: Placement,
+    /// closures (initialisers, predicates) allocate a small block in the same arena, and keep it,
+    /// before they do anything else: what they allocated must survive the unwinding and whatever
+    /// the arena hands out afterwards
+    #[serde(default)]
+    pub inner_alloc: bool,
 }
 
 pub struct W3Report {
@@ -99,6 +104,32 @@ pub struct W3Report {
     /// number of callback invocations counted
     pub callbacks: u64,
     pub fired: bool,
+}
+
+thread_local! {
+    static INNER_ON: std::cell::Cell<bool> = const { std::cell::Cell::new(false) };
+    static INNER: std::cell::RefCell<Vec<usize>> = const { std::cell::RefCell::new(Vec::new()) };
+}
+const INNER_FILL: u8 = 0xC7;
+const INNER_SIZE: usize = 24;
+
+/// called first thing inside a callback, still on behalf of the arena
+fn inner_alloc(bump: &Bump) {
+    if !INNER_ON.with(|c| c.get()) {
+        return;
+    }
+    let p = bump.alloc_layout(std::alloc::Layout::from_size_align(INNER_SIZE, 1).unwrap()).as_ptr();
+    unsafe { std::ptr::write_bytes(p, INNER_FILL, INNER_SIZE) };
+    let _g = harness_scope();
+    INNER.with(|v| v.borrow_mut().push(p as usize));
+}
+
+fn inner_disturbed() -> Option<usize> {
+    INNER.with(|v| {
+        v.borrow()
+            .iter()
+            .position(|&a| (0..INNER_SIZE).any(|k| unsafe { *(a as *const u8).add(k) } != INNER_FILL))
+    })
 }
 
 fn fresh_ids(n: usize) -> Vec<u32> {
@@ -465,6 +496,7 @@ fn run_vec<E: Elem>(s: &W3Script, bump: &'static Bump, ck: &mut Ck, stats: &mut 
             let id = track::fresh_id();
             b_call(|| {
                 let _ = bump.try_alloc_with(|| {
+                    inner_alloc(bump);
                     let _g = harness_scope();
                     tick(TICK_CLOSURE);
                     E::mk(id, 1)
@@ -477,6 +509,7 @@ fn run_vec<E: Elem>(s: &W3Script, bump: &'static Bump, ck: &mut Ck, stats: &mut 
             let fail = *fail;
             b_call(|| {
                 let r = bump.try_alloc_try_with(|| {
+                    inner_alloc(bump);
                     let _g = harness_scope();
                     tick(TICK_CLOSURE);
                     if fail {
@@ -521,6 +554,7 @@ fn run_vec<E: Elem>(s: &W3Script, bump: &'static Bump, ck: &mut Ck, stats: &mut 
             let ids = fresh_ids(*n);
             b_call(|| {
                 bump.alloc_slice_fill_with(ids.len(), |i| {
+                    inner_alloc(bump);
                     let _g = harness_scope();
                     tick(TICK_CLOSURE);
                     E::mk(ids[i], i as u32)
@@ -559,6 +593,7 @@ fn run_vec<E: Elem>(s: &W3Script, bump: &'static Bump, ck: &mut Ck, stats: &mut 
             let id = track::fresh_id();
             b_call(|| {
                 bump.alloc_with(|| {
+                    inner_alloc(bump);
                     let _g = harness_scope();
                     tick(TICK_CLOSURE);
                     E::mk(id, 1)
@@ -571,6 +606,7 @@ fn run_vec<E: Elem>(s: &W3Script, bump: &'static Bump, ck: &mut Ck, stats: &mut 
             let fail = *fail;
             b_call(|| {
                 let r = bump.alloc_try_with(|| {
+                    inner_alloc(bump);
                     let _g = harness_scope();
                     tick(TICK_CLOSURE);
                     if fail {
@@ -591,6 +627,7 @@ fn run_vec<E: Elem>(s: &W3Script, bump: &'static Bump, ck: &mut Ck, stats: &mut 
             let fail_at = *fail_at;
             b_call(|| {
                 let r = bump.alloc_slice_try_fill_with(ids.len() - 1, |i| {
+                    inner_alloc(bump);
                     let _g = harness_scope();
                     tick(TICK_CLOSURE);
                     if Some(i) == fail_at {
@@ -649,6 +686,9 @@ fn run_vec<E: Elem>(s: &W3Script, bump: &'static Bump, ck: &mut Ck, stats: &mut 
         if canary != 0 && (0..24).any(|k| unsafe { *(canary as *const u8).add(k) } != 0x5A) {
             ck.violate("neighbour-disturbed", "", "canary block changed".into());
         }
+        if let Some(i) = inner_disturbed() {
+            ck.violate("block-allocated-by-callback-disturbed", "", format!("block #{} that a callback allocated in the arena before the panic was overwritten by a later allocation", i));
+        }
     }
     // follow-up
     if ck.viol.is_empty() {
@@ -686,6 +726,11 @@ fn run_vec<E: Elem>(s: &W3Script, bump: &'static Bump, ck: &mut Ck, stats: &mut 
             drop(held);
         }
         ck.ledger("after dropping the container");
+        if ck.viol.is_empty() {
+            if let Some(i) = inner_disturbed() {
+                ck.violate("block-allocated-by-callback-disturbed", "follow-up", format!("block #{} that a callback allocated in the arena was overwritten while the container was used and dropped", i));
+            }
+        }
     } else {
         std::mem::forget(v_opt);
         std::mem::forget(second);
@@ -838,6 +883,8 @@ fn run_str(s: &W3Script, bump: &'static Bump, ck: &mut Ck, stats: &mut Stats) ->
 pub fn exec_w3(s: &W3Script) -> W3Report {
     simalloc::begin_run(s.placement);
     track::reset_ledger();
+    INNER_ON.with(|c| c.set(s.inner_alloc));
+    INNER.with(|v| v.borrow_mut().clear());
     let name = crate::w2::op_name(&s.target);
     let mut ck = Ck { viol: Vec::new(), name };
     let mut stats = Stats::default();
@@ -1035,5 +1082,6 @@ pub fn gen_w3(seed: u64) -> W3Script {
         panic_at: 0,
         follow: if r.chance(1, 2) { Follow::DropNow } else { Follow::Continue },
         placement: Placement::Seeded(r.next()),
+        inner_alloc: Rng::new(seed).sub(55).chance(1, 3),
     }
 }
